@@ -65,6 +65,9 @@ def case_to_coq(c):
         "; ".join(obs(o) for o in c.obs), lst(fin["m"]), lst(fin["pa"]), lst(fin["pf"]), lst(fin["ta"]), lst(fin["tf"]))
 
 
+HYPS_SAFETY = {}   # case line -> does it satisfy the hypotheses of C19_order_exactly_once_partial
+
+
 def unprintable(c):
     return c.broken or "?" in c.line
 
@@ -85,11 +88,14 @@ def eval_cases(cases, tag):
                 "From GMQ Require Import Data.QueueSwap Run.QueueSwapRun.\nOpen Scope N_scope.\n"
                 "Definition cases : list qs_case := [\n%s\n].\n"
                 "Definition M := Eval vm_compute in qs_mismatches cases.\nPrint M.\n"
-                "Definition H := Eval vm_compute in qs_hyps cases.\nPrint H.\n") % ";\n".join(terms)
+                "Definition H := Eval vm_compute in qs_hyps cases.\nPrint H.\n"
+                "Definition HS := Eval vm_compute in qs_hyps_safety cases.\nPrint HS.\n") % ";\n".join(terms)
         out = vlib.coq_eval(tag, text)
         bad += [idx[int(m.replace("%nat", ""))] for m in vlib.parse_coq_list(out, "M")]
+        hs = vlib.parse_coq_list(out, "HS")
         for j, h in enumerate(vlib.parse_coq_list(out, "H")):
             hyps[idx[j]] = (h == "true")
+            HYPS_SAFETY[cases[idx[j]].line] = (hs[j] == "true")
     return sorted(set(bad)), hyps
 
 
@@ -283,7 +289,7 @@ def run(res):
     cases += [Case(l) for l in vlib.harness(exe, args).splitlines() if l.strip()]
     bad, hyps = eval_cases(cases, "C19") if pr["runners_ok"] else (None, [None] * len(cases))
     # judge every implementation trace
-    unknown, known_dev, overflowed, hyp_and_overflow = [], {}, 0, 0
+    unknown, known_dev, overflowed, hyp_and_overflow, theorem_vs_impl = [], {}, 0, 0, []
     for i, c in enumerate(cases):
         dev, trig = judge(c)
         ov = any(s[0] == "1" for s in c.snaps()) if not c.broken else False
@@ -296,8 +302,8 @@ def run(res):
                     known_dev[t] = known_dev.get(t, 0) + 1
             else:
                 unknown.append((i, dev))
-        elif hyps[i] is False and not trig and False:
-            pass
+        if dev is not None and HYPS_SAFETY.get(c.line):
+            theorem_vs_impl.append(i)   # the theorem's hypotheses hold on this label list, yet the implementation deviates
     # cross-configuration groups: identical delivery sequences (limit 1 excluded: F40)
     groups = {}
     for i, c in enumerate(cases):
@@ -319,10 +325,16 @@ def run(res):
     res.cov["generator_distribution"] = {"corpus": ncorpus, "random-schedule": sum(1 for c in cases[ncorpus:] if not c.group),
                                          "friendly-group-members": sum(1 for c in cases if c.group), "groups": len(groups),
                                          "overflowed": overflowed, "satisfy-hypotheses-and-overflow": hyp_and_overflow,
-                                         "satisfy-hypotheses": sum(1 for h in hyps if h), "deviate-from-spec-with-known-trigger": known_dev}
+                                         "satisfy-hypotheses": sum(1 for h in hyps if h),
+                                         "satisfy-safety-hypotheses": sum(1 for c in cases if HYPS_SAFETY.get(c.line)),
+                                         "satisfy-safety-hypotheses-and-overflow": sum(1 for c in cases if HYPS_SAFETY.get(c.line) and not c.broken and any(x[0] == "1" for x in c.snaps())), "deviate-from-spec-with-known-trigger": known_dev}
     res.cov["samples"] = [c.line for c in cases[ncorpus:ncorpus + 2]] + [c.line for c in cases[-2:]]
     res.cov["traces_validated_against_impl"] = len(cases) - (len(bad) if bad else 0)
     res.cov["exhaustive"] = False
+    res.cov["cases_where_theorem_hypotheses_hold_but_implementation_deviates"] = len(theorem_vs_impl)
+    for i in theorem_vs_impl:   # cannot happen while model = implementation; if it does it is a failing input by the theorem itself
+        if all(i != u[0] for u in unknown):
+            unknown.append((i, judge(cases[i])[0]))
     decide(res, pr, bad, cases, exe, unknown, group_diffs, hyps)
 
 
